@@ -93,7 +93,8 @@ def row_valued_in_once(recipe):
 once_cluster = S.stream_once_cluster
 DIRECTED = [S.stream_once_cluster, S.stream_once_cluster, S.stream_once_hidden, S.stream_idle_middle, S.stream_idle_middle,
             S.stream_randref_nicks, S.stream_once_cluster_randref, S.stream_once_same_table_nick_order,
-            S.stream_history_rows_hold_once_refs, S.stream_history_rows_hold_once_refs]
+            S.stream_history_rows_hold_once_refs, S.stream_history_rows_hold_once_refs,
+            S.stream_once_same_table_nick_order, S.stream_randref_hidden_child, S.stream_once_nick_like_once_table]
 
 
 def generate(rng, tier):
@@ -117,7 +118,88 @@ def generate(rng, tier):
             cases.append({"recipe": r, "ks": ks, "features": feats})
         if len(cases) >= n * 3:
             break
+    # other ROUTES for the same history (no rng consumed: the older cases stay what they were): every 5th
+    # case without random functions / include files / hand-written text is also run through the command
+    # line with ONE state file carried along the chain, and through generate_data with real files where
+    # every continued link is run TWICE from the same unchanged file
+    j = 0
+    for c in cases:
+        if S.uses_random(c["recipe"]) or c["recipe"].get("raw_yaml") or len(c["ks"]) < 2:
+            continue
+        j += 1
+        if j % 5 == 0:
+            c["route"] = ROUTES[(j // 5) % len(ROUTES)]
     return cases
+
+
+ROUTES = ["cli_one_state_file", "paths_each_link_twice", "cli_two_state_files"]
+
+
+def _ids_of_json(text):
+    import json
+    return [[r.get("_table"), r.get("id")] for r in json.loads(text or "[]")]
+
+
+def run_route(recipe, ks, route):
+    """the chain `ks` once more, on another route -> [{"ok": [[table, id], ..]} | {"err": .., "msg": ..}] per run
+    (for `paths_each_link_twice`: {"ok": .., "again": ..} - the same link run a second time from the same file)"""
+    import shutil
+    import tempfile
+    main, inc = S.recipe_docs(recipe)
+    if inc is not None:
+        return None
+    d = tempfile.mkdtemp(prefix="sfv_c04r_", dir="/var/tmp")
+    out = []
+    try:
+        rp = os.path.join(d, "recipe.yml")
+        with open(rp, "w") as f:
+            f.write(S.recipe_yaml(recipe))
+        state = [os.path.join(d, "state.yml"), os.path.join(d, "state_b.yml")]
+        for i, k in enumerate(ks):
+            last = i == len(ks) - 1
+            src = state[0] if route != "cli_two_state_files" else state[(i + 1) % 2]
+            dst = state[0] if route != "cli_two_state_files" else state[i % 2]
+
+            def one(tag):
+                of = os.path.join(d, f"out_{i}_{tag}.json")
+                try:
+                    if route.startswith("cli"):
+                        from snowfakery.cli import generate_cli
+                        args = [rp, "--reps", str(k), "--output-format", "json", "--output-file", of]
+                        if i > 0:
+                            args += ["--continuation-file", src]
+                        if not last:
+                            args += ["--generate-continuation-file", dst]
+                        generate_cli.main(args, standalone_mode=False)
+                    else:
+                        from snowfakery.api import generate_data, COUNT_REPS
+                        generate_data(rp, target_number=(COUNT_REPS, k), output_format="json", output_file=of,
+                                      continuation_file=(src if i > 0 else None),
+                                      generate_continuation_file=(os.path.join(d, f"next_{tag}.yml") if not last else None))
+                    with open(of) as f:
+                        return {"ok": _ids_of_json(f.read())}
+                except BaseException as e:
+                    if type(e).__name__ == "_CaseTimeout":
+                        raise
+                    return {"err": C.canon_exc(e), "msg": str(e)[:200]}
+
+            o = one("a")
+            if route == "paths_each_link_twice":
+                if i > 0:
+                    o2 = one("b")
+                    o["again"] = o2.get("ok", o2)
+                    try:
+                        o["next_equal"] = last or open(os.path.join(d, "next_a.yml")).read() == open(os.path.join(d, "next_b.yml")).read()
+                    except OSError:
+                        o["next_equal"] = None
+                if not last and "ok" in o:
+                    shutil.copyfile(os.path.join(d, "next_a.yml"), state[0])
+            out.append(o)
+            if "ok" not in o:
+                break
+        return out
+    finally:
+        shutil.rmtree(d, ignore_errors=True)
 
 
 def run_impl(case):
@@ -167,7 +249,12 @@ def run_impl(case):
             todays.append(m.group(1) if m else None)
             if i == 0:      # pretend the dataset was started on an earlier day
                 cont = re.sub(r"^today: *\S+", "today: 2021-03-04", cont, count=1, flags=re.M)
-    return {"whole": whole, "runs": runs, "todays": todays}
+    obs = {"whole": whole, "runs": runs, "todays": todays}
+    if case.get("route") and all("ok" in x for x in runs):
+        rr = run_route(r, ks, case["route"])
+        if rr is not None:
+            obs["route_runs"] = rr
+    return obs
 
 
 def coq_case(case, obs):
@@ -243,6 +330,25 @@ def oracle(case, obs):
             return (f"split-differs(ids/reference tables): composition {case['ks']}: row {i}: split "
                     f"{cat[i] if i < len(cat) else None} vs uninterrupted {whole['ok'][i] if i < len(whole['ok']) else None}")
         return None
+    rr = obs.get("route_runs")
+    if rr is not None:
+        # the same history by another route (command line with its state file(s); generate_data with real files,
+        # every continued link run twice from the same unchanged file): same outcome, same (table, id) sequence
+        for i, (lib, o) in enumerate(zip(runs, rr)):
+            want = [[tb, next((v[1] for f, v in fs if f == "id"), None)] for tb, fs in lib["ok"]]
+            if "ok" not in o:
+                return (f"route-differs({case['route']}): run {i + 1} of split {case['ks']} completes when the continuation is "
+                        f"passed as text, but fails on this route: {o.get('err')}: {o.get('msg', '')[:140]}")
+            if o["ok"] != want:
+                return f"route-differs({case['route']}): run {i + 1} of split {case['ks']}: ids {o['ok'][:8]} vs {want[:8]} when the continuation is passed as text"
+            if "again" in o and o["again"] != o["ok"]:
+                return (f"route-differs({case['route']}): run {i + 1} of split {case['ks']} started a second time from the same unchanged "
+                        f"continuation file gives {str(o['again'])[:160]} instead of {str(o['ok'])[:160]}")
+            if o.get("next_equal") is False:
+                return (f"route-differs({case['route']}): run {i + 1} of split {case['ks']} started a second time from the same unchanged "
+                        f"continuation file writes a different continuation file")
+        if len(rr) < len(runs):
+            return f"route-differs({case['route']}): the chain stopped after {len(rr)} of {len(runs)} runs"
     if cat != whole["ok"]:
         i = next((j for j, (a, b) in enumerate(zip(cat, whole["ok"])) if a != b), min(len(cat), len(whole["ok"])))
         return (f"split-differs: composition {case['ks']}: row {i}: split {cat[i] if i < len(cat) else None} vs "
@@ -259,6 +365,8 @@ def stats(cases, obss):
     st = S.feature_stats(cases, [o["whole"] for o in obss if isinstance(o, dict) and "whole" in o])
     st["compositions"] = dict(Counter("+".join(map(str, c["ks"])) for c in cases))
     st["row_valued_just_once_stream"] = sum(1 for c in cases if row_valued_in_once(c["recipe"]))
+    st["routes"] = dict(Counter(c.get("route", "text_in_process") for c in cases))
+    st["route_chains_run"] = sum(1 for o in obss if isinstance(o, dict) and o.get("route_runs") is not None)
     return st
 
 
